@@ -70,6 +70,8 @@ def apply(dst, m):
         p = os.path.join(dst, e["file"])
         s = open(p, encoding="latin-1").read()
         if s.count(e["old"]) < 1:
+            for p0, s0 in reversed(saved):
+                open(p0, "w", encoding="latin-1").write(s0)
             raise KeyError("anchor text not found in %s: %r" % (e["file"], e["old"][:60]))
         saved.append((p, s))
         occ = e.get("occurrence", 1)
@@ -117,7 +119,8 @@ def run_mutant(dst, m):
             return "caught", ""
         return "MISSED", out[-3000:] + r.stderr[-1000:]
     finally:
-        for p, s in saved:
+        # several edits may touch one file: restore in reverse order so that the first saved (original) text wins
+        for p, s in reversed(saved):
             open(p, "w", encoding="latin-1").write(s)
 
 
